@@ -98,3 +98,13 @@ Proof.
   split; [vm_compute; reflexivity|]. split; [vm_compute; reflexivity|].
   split; [vm_compute; reflexivity|]. split; [discriminate|]. vm_compute; reflexivity.
 Qed.
+
+(* (4) the pinned read_data_page_v2 sent PLAIN pages of a repeated leaf into the flat branch *)
+Lemma v2_plain_refuted : exists enc, v2_branch true 1 enc = BFlat /\ v2_branch false 1 enc = BAssemble.
+Proof. exists EPlain. split; reflexivity. Qed.
+
+Lemma v2_branch_repaired : forall max_rep enc, 0 < max_rep -> (enc = EPlain \/ enc = EDict) ->
+  v2_branch false max_rep enc = BAssemble.
+Proof.
+  intros max_rep enc H [->| ->]; cbn; apply N.ltb_lt in H; rewrite H; reflexivity.
+Qed.
